@@ -10,6 +10,7 @@
   OpInc/OpDec apply to a fresh copy), and the S-alias stream.
 -/
 import EvalFilter.Props.C06
+import EvalFilter.Proofs.StmtCorrect
 
 namespace EvalFilter.Props.C15
 open EvalFilter EvalFilter.VM EvalFilter.Props.C06
@@ -42,6 +43,39 @@ theorem C15_set_only_target (e : Env) (name other : Str) (v : Value) (h : other 
     simp only [Env.get, Env.isLocal]
     rw [updateInnermost_other e.scopes sc name other v h hu]
   · simp only [Env.get, Env.isLocal, lookup_setAssoc_other _ _ _ _ h]
+
+open EvalFilter.Exec EvalFilter.Compiler in
+/-- **A compound assignment `x op= e` changes `x` and nothing else** (end to end: this is the outcome the
+    compiled code produces, by `C02_program_correct`): if it completes, the environment is the old one with
+    `x` set to `x op e`; every other variable reads as before. -/
+theorem C15_compound_assignment (M : Machine) (obj : HostVal) (f : Nat) (op : Str) (name : Str) (r : Expr)
+    (env env' : Env) (out out' : Str)
+    (h : execE M obj (f + 1) (.infix op (.ident name) r) env out = .normal env' out') :
+    (∃ v, env' = env.set name v) ∧ ∀ other, other ≠ name → env'.get other = env.get other := by
+  simp only [execE] at h
+  cases hco : compoundOp op with
+  | none => simp [hco] at h
+  | some o =>
+    simp only [hco] at h
+    cases hl : evalE M obj env (.ident name) out with
+    | mk res o1 =>
+      cases res with
+      | error y => simp [hl] at h
+      | ok lv =>
+        simp only [hl] at h
+        cases hr : evalE M obj env r o1 with
+        | mk res2 o2 =>
+          cases res2 with
+          | error y => simp [hr] at h
+          | ok rv =>
+            simp only [hr] at h
+            cases hb : binop M o lv rv with
+            | error y => simp [hb] at h
+            | ok p =>
+              simp only [hb, Outcome.normal.injEq] at h
+              obtain ⟨rfl, _⟩ := h
+              exact ⟨⟨p.1, rfl⟩, fun other ho => C15_set_only_target env name other p.1 ho⟩
+
 
 /-- `x++` on an integer variable: the new state is the old one with x := x + 1 (a fresh value), the
     looked-up value is dropped from the stack; nothing else changes. -/
